@@ -93,6 +93,8 @@ LeafNext == last = NoOp /\ \E x \in TreeU : LeafCheck(sel[1], sel[2], x)
 Forms == {[pieces |-> <<"T">>, dots |-> "none", str |-> "T"],
           [pieces |-> <<"S", "T">>, dots |-> "none", str |-> "S T"],
           [pieces |-> <<"T", "S">>, dots |-> "none", str |-> "T S"],
+          [pieces |-> <<"T", "T">>, dots |-> "none", str |-> "T T"],          \* a name may be repeated
+          [pieces |-> <<"S", "T", "S">>, dots |-> "none", str |-> "S T S"],
           [pieces |-> <<"T">>, dots |-> "post", str |-> "T ..."],
           [pieces |-> <<"T">>, dots |-> "pre", str |-> "... T"],
           [pieces |-> <<"S", "T">>, dots |-> "post", str |-> "S T ..."],
@@ -145,6 +147,8 @@ FormMeaning == (Done /\ Mode = "struct" /\ {"T", "S"} \subseteq DOMAIN last.pre.
       CASE F.str = "T" -> sx = T
         [] F.str = "S T" -> sx = Compose(S, T)
         [] F.str = "T S" -> sx = Compose(T, S)
+        [] F.str = "T T" -> sx = Compose(T, T)
+        [] F.str = "S T S" -> sx = Compose(Compose(S, T), S)
         [] F.str = "T ..." -> IsPrefix(T, sx)
         [] F.str = "... T" -> SuffixOK(T, sx)
         [] F.str = "S T ..." -> IsPrefix(Compose(S, T), sx)
